@@ -50,22 +50,44 @@ func statusString(st int) string {
 
 // buildExport renders one batch of spans as an OTLP ExportTraceServiceRequest. Consecutive spans
 // of the same service share a ResourceSpans entry (so one request usually carries several
-// resources, and a service can occur more than once in a request).
-func buildExport(services []string, spans []*Span, baseNs int64) ([]byte, error) {
+// resources, and a service can occur more than once in a request). nameless is the index of the
+// service whose resources carry no service.name attribute (−1: none); such a resource is sent,
+// in turn, without a Resource message, with an empty attribute list, or with other attributes
+// only. Named resources sometimes carry further attributes before or after service.name, and a
+// resource's spans are sometimes split over two ScopeSpans. All variations are functions of the
+// span data, so a case replays exactly.
+func buildExport(services []string, nameless int, spans []*Span, baseNs int64) ([]byte, error) {
 	req := &coltracepb.ExportTraceServiceRequest{}
+	strAttr := func(k, v string) *commonpb.KeyValue {
+		return &commonpb.KeyValue{Key: k, Value: &commonpb.AnyValue{Value: &commonpb.AnyValue_StringValue{StringValue: v}}}
+	}
 	var cur *tracepb.ResourceSpans
 	curSvc := -1
 	for _, s := range spans {
 		if cur == nil || s.Svc != curSvc {
-			cur = &tracepb.ResourceSpans{
-				Resource: &resourcepb.Resource{Attributes: []*commonpb.KeyValue{{
-					Key:   "service.name",
-					Value: &commonpb.AnyValue{Value: &commonpb.AnyValue_StringValue{StringValue: services[s.Svc]}},
-				}}},
-				ScopeSpans: []*tracepb.ScopeSpans{{}},
+			cur = &tracepb.ResourceSpans{ScopeSpans: []*tracepb.ScopeSpans{{}}}
+			if s.Svc == nameless {
+				switch s.Vid % 3 {
+				case 0: // no Resource message at all
+				case 1:
+					cur.Resource = &resourcepb.Resource{}
+				default:
+					cur.Resource = &resourcepb.Resource{Attributes: []*commonpb.KeyValue{strAttr("host.name", "node-7"), strAttr("service.namespace", "shop")}}
+				}
+			} else {
+				attrs := []*commonpb.KeyValue{strAttr("service.name", services[s.Svc])}
+				switch s.Vid % 4 {
+				case 0:
+					attrs = append([]*commonpb.KeyValue{strAttr("host.name", "node-7")}, attrs...)
+				case 1:
+					attrs = append(attrs, strAttr("service.version", "1.2.3"))
+				}
+				cur.Resource = &resourcepb.Resource{Attributes: attrs}
 			}
 			curSvc = s.Svc
 			req.ResourceSpans = append(req.ResourceSpans, cur)
+		} else if s.Vid%5 == 0 {
+			cur.ScopeSpans = append(cur.ScopeSpans, &tracepb.ScopeSpans{})
 		}
 		tid, err := hex.DecodeString(s.Trace)
 		if err != nil {
@@ -100,7 +122,7 @@ func buildExport(services []string, spans []*Span, baseNs int64) ([]byte, error)
 		if s.Status != StNone {
 			ps.Status = &tracepb.Status{Code: tracepb.Status_StatusCode(s.Status)}
 		}
-		ss := cur.ScopeSpans[0]
+		ss := cur.ScopeSpans[len(cur.ScopeSpans)-1]
 		ss.Spans = append(ss.Spans, ps)
 	}
 	return proto.Marshal(req)
